@@ -1185,9 +1185,13 @@ impl SpanPrinter {
         let non_fractional = span.without_lower(split_at);
         let fractional = span.only_lower(split_at);
         self.print_span_designators_non_fraction(&non_fractional, wtr)?;
+        // The sign is written separately (as a prefix or a suffix), so only
+        // the magnitude is printed here. Without this, a negative span had
+        // its fractional unit printed as a negative number, e.g. `-1.5s ago`,
+        // which the parser rejects.
         wtr.write_fractional_duration(
             unit,
-            &fractional.to_duration_invariant(),
+            &fractional.abs().to_duration_invariant(),
         )?;
         Ok(())
     }
